@@ -3,6 +3,7 @@ mod dev;
 mod engine;
 mod gen;
 mod lspc;
+mod minimize;
 mod oal;
 mod props;
 mod tape;
